@@ -18,4 +18,10 @@ CLAIMED["C14"] = {
     "technique": "Lean 4 theorems over a hand-written model + differential correspondence check",
 }
 
+CLAIMED["C07"] = {
+    "text": "Theorems for all RLP items with payloads < 2^64 bytes: a strict Yellow-Paper decoder (rejecting non-minimal lengths, wrapped single bytes < 0x80, leading-zero lengths) inverts the encoder with the rest left untouched (decode_encode, decodeAll_encode), the encoder is injective (encode_injective), and the decoder accepts nothing but canonical encodings (decode_canonical); the code-shaped len/bytes/uint/list functions equal the spec encoder, never overflow their u8 arithmetic, integers have no leading zero and zero is 0x80 (model_*_spec). Tied to src/transaction/rlp.rs through the verif-hooks re-exports: every length header 0..3000 (thorough 0..70000) and around 2^8..2^64, all single bytes, every string length 0..300 (0..1100), 64 KiB / 16 MiB strings, every integer byte width, random lists; each output is strictly decoded by the spec decoder.",
+    "note": COMMON_NOTE + " `to_be_bytes()[leading_zeros/8..]` is modelled as the minimal big-endian representation (validated for every byte width by the correspondence).",
+    "technique": "Lean 4 theorems over a hand-written model + differential correspondence check",
+}
+
 NOT_YET = {}
